@@ -32,6 +32,11 @@ private theorem noTrace_finishClass (s : RegState) (cid nd r) :
   · exact noTrace_err _ _
   · exact noTrace_ok _ _ _
 
+private theorem noTrace_classSuccess (s s1 : RegState) (cid nd sym rd) :
+    NoTrace s (classSuccess s s1 cid nd sym rd) := by
+  unfold classSuccess
+  repeat' (first | exact noTrace_ok _ _ _ | exact noTrace_finishClass _ _ _ _ | split)
+
 /-- a rejected unit creation (`new_unit`: symbol not a string / empty /
 already registered, definition of another class, of another or of no
 dimension, of an unsupported kind) leaves the state untouched -/
@@ -52,7 +57,7 @@ state untouched — in particular no reference unit stays registered. -/
 theorem declClass_rejected_no_trace (s : RegState) (d : ClassDecl) :
     NoTrace s (s.declClass d) := by
   unfold RegState.declClass
-  repeat' (first | exact noTrace_err _ _ | exact noTrace_ok _ _ _ | exact noTrace_finishClass _ _ _ _ | split | dsimp only)
+  repeat' (first | exact noTrace_err _ _ | exact noTrace_ok _ _ _ | exact noTrace_classSuccess _ _ _ _ _ _ | split | dsimp only)
 
 /-- Failing unit arithmetic does not touch the operation cache (only
 successes are cached). -/
